@@ -979,4 +979,196 @@ theorem rawFuel_shape (k : Kind) (c : Cfg) (f : Fmt) : ∀ (n : Nat) (bs : Bytes
       · simp at h
 
 
+/-! ## `die_ranges` -/
+
+/-- attributes before a `DW_AT_ranges` that cannot end the loop of `die_ranges` with an error:
+`DW_AT_low_pc` as `DW_FORM_addr`, `DW_AT_high_pc` as `DW_FORM_addr` or a constant, anything that is
+not one of the three range attributes -/
+def Benign : AttrName × AttrVal → Prop
+  | (.lowPc, .addr _) => True
+  | (.lowPc, _) => False
+  | (.highPc, .addr _) => True
+  | (.highPc, .udata _) => True
+  | (.highPc, _) => False
+  | (.ranges, _) => False
+  | _ => True
+
+instance (a : AttrName × AttrVal) : Decidable (Benign a) := by
+  obtain ⟨n, v⟩ := a
+  cases n <;> cases v <;> unfold Benign <;> infer_instance
+
+/-- the loop state after benign attributes: the last `low_pc`, the last address-valued `high_pc`
+and the last constant `high_pc` seen -/
+def accStep (acc : DieAcc) : AttrName × AttrVal → DieAcc
+  | (.lowPc, .addr a) => { acc with lowPc := some a }
+  | (.highPc, .addr a) => { acc with highPc := some a }
+  | (.highPc, .udata v) => { acc with size := some v }
+  | _ => acc
+
+theorem dieRangesLoop_benign (u : UnitCtx) (secs : Sections) (pre : Attrs) :
+    ∀ (rest : Attrs) (acc : DieAcc), (∀ a ∈ pre, Benign a) →
+      dieRangesLoop u secs (pre ++ rest) acc = dieRangesLoop u secs rest (pre.foldl accStep acc) := by
+  induction pre with
+  | nil => intro rest acc _; rfl
+  | cons a pre ih =>
+    intro rest acc hb
+    have ha := hb a (by simp)
+    have hrest : ∀ x ∈ pre, Benign x := fun x hx => hb x (by simp [hx])
+    obtain ⟨n, v⟩ := a
+    simp only [List.cons_append, List.foldl_cons]
+    cases n <;> cases v <;> simp only [Benign] at ha <;>
+      first
+        | (simp only [dieRangesLoop, attrAddress, Out.bind_ok, accStep]; exact ih rest _ hrest)
+        | (rw [dieRangesLoop]; simp only [accStep]; exact ih rest _ hrest)
+
+/-- the first usable `DW_AT_ranges` wins, whatever follows -/
+theorem dieRangesCore_ranges_wins (u : UnitCtx) (secs : Sections) (pre post : Attrs) (v : AttrVal)
+    (o : Nat) (hb : ∀ a ∈ pre, Benign a) (ho : attrRangesOffset u secs v = .ok (some o)) :
+    dieRangesCore u secs (pre ++ (.ranges, v) :: post) =
+      (do let evs ← unitRangesAt u secs o; pure (.list evs)) := by
+  unfold dieRangesCore
+  rw [dieRangesLoop_benign u secs pre _ _ hb]
+  rw [dieRangesLoop]
+  simp only [ho, Out.bind_ok]
+  cases unitRangesAt u secs o <;> rfl
+
+/-- without `DW_AT_ranges`: the single range `low_pc .. high_pc` or `low_pc .. low_pc + size` -/
+theorem dieRangesCore_single (u : UnitCtx) (secs : Sections) (attrs : Attrs)
+    (hb : ∀ a ∈ attrs, Benign a) :
+    dieRangesCore u secs attrs =
+      let acc := attrs.foldl accStep {}
+      match acc.lowPc with
+      | none => .ok (.single none)
+      | some b =>
+        match acc.size with
+        | some sz => if 2 ^ 64 ≤ b + sz then .err .rAddressOverflow else .ok (.single (some (b, b + sz)))
+        | none => .ok (.single (acc.highPc.map fun e => (b, e))) := by
+  unfold dieRangesCore
+  have := dieRangesLoop_benign u secs attrs [] {} hb
+  rw [List.append_nil] at this
+  rw [this]
+  simp only [dieRangesLoop, Out.bind_ok]
+  cases (List.foldl accStep {} attrs).lowPc with
+  | none => rfl
+  | some b =>
+    simp only
+    cases (List.foldl accStep {} attrs).size with
+    | none => rfl
+    | some sz => simp only; split <;> rfl
+
+
+theorem cookedAt_items (k : Kind) (c : Cfg) (dwo : Bool) (legacy v5 : Bytes)
+    (offset base : Nat) (addr : Bytes) (ab : Nat) (evs : List (Ev Item))
+    (h : cookedAt k c dwo legacy v5 offset base addr ab = .ok evs) :
+    ∀ it, Ev.item it ∈ evs → it.b < it.e ∧ it.b < minTombstone c.addrSize := by
+  have key : ∀ f bs, cookedAll k c f addr ab base bs = .ok evs →
+      ∀ it, Ev.item it ∈ evs → it.b < it.e ∧ it.b < minTombstone c.addrSize := by
+    intro f bs h
+    unfold cookedAll at h
+    cases hr : rawAll k c f bs with
+    | ok raw => rw [hr] at h; exact cook_items c addr ab raw base evs h
+    | err e => rw [hr] at h; simp at h
+    | panic w => rw [hr] at h; simp at h
+    | diverge => rw [hr] at h; simp at h
+  unfold cookedAt at h
+  simp only at h
+  split at h
+  · split at h
+    · simp at h
+    · exact key _ _ h
+  · split at h
+    · simp at h
+    · exact key _ _ h
+
+theorem dieRangesLoop_list_items (u : UnitCtx) (secs : Sections) (attrs : Attrs) :
+    ∀ (acc : DieAcc) (evs : List (Ev Item)), dieRangesLoop u secs attrs acc = .ok (.inr evs) →
+      ∀ it, Ev.item it ∈ evs → it.b < it.e ∧ it.b < minTombstone u.cfg.addrSize := by
+  induction attrs with
+  | nil => intro acc evs h; simp [dieRangesLoop] at h
+  | cons a rest ih =>
+    intro acc evs h
+    obtain ⟨n, v⟩ := a
+    cases n with
+    | lowPc =>
+      rw [dieRangesLoop] at h
+      cases ha : attrAddress u secs v with
+      | ok oa =>
+        rw [ha] at h
+        cases oa with
+        | none => simp at h
+        | some a => exact ih _ evs h
+      | err e => rw [ha] at h; simp at h
+      | panic w => rw [ha] at h; simp at h
+      | diverge => rw [ha] at h; simp at h
+    | highPc =>
+      cases v with
+      | udata val => rw [dieRangesLoop] at h; exact ih _ evs h
+      | addr x =>
+        simp only [dieRangesLoop, attrAddress, Out.bind_ok] at h; exact ih _ evs h
+      | addrx i =>
+        rw [dieRangesLoop] at h
+        cases ha : attrAddress u secs (.addrx i) with
+        | ok oa =>
+          rw [ha] at h
+          cases oa with
+          | none => simp at h
+          | some a => exact ih _ evs h
+        | err e => rw [ha] at h; simp at h
+        | panic w => rw [ha] at h; simp at h
+        | diverge => rw [ha] at h; simp at h
+        all_goals simp
+      | secOffset o => simp [dieRangesLoop, attrAddress] at h
+      | listx i => simp [dieRangesLoop, attrAddress] at h
+      | other => simp [dieRangesLoop, attrAddress] at h
+    | ranges =>
+      rw [dieRangesLoop] at h
+      cases ho : attrRangesOffset u secs v with
+      | ok oo =>
+        rw [ho] at h
+        cases oo with
+        | none => exact ih _ evs h
+        | some o =>
+          simp only [Out.bind_ok] at h
+          cases hu : unitRangesAt u secs o with
+          | ok evs' =>
+            rw [hu] at h
+            simp only [Out.bind_ok, Out.pure_eq, Out.ok.injEq, Sum.inr.injEq] at h
+            subst h
+            exact cookedAt_items _ _ _ _ _ _ _ _ _ _ hu
+          | err e => rw [hu] at h; simp at h
+          | panic w => rw [hu] at h; simp at h
+          | diverge => rw [hu] at h; simp at h
+      | err e => rw [ho] at h; simp at h
+      | panic w => rw [ho] at h; simp at h
+      | diverge => rw [ho] at h; simp at h
+    | location => simp only [dieRangesLoop] at h; exact ih _ evs h
+    | addrBase => simp only [dieRangesLoop] at h; exact ih _ evs h
+    | rnglistsBase => simp only [dieRangesLoop] at h; exact ih _ evs h
+    | loclistsBase => simp only [dieRangesLoop] at h; exact ih _ evs h
+    | other => simp only [dieRangesLoop] at h; exact ih _ evs h
+
+theorem dieRangesCore_list_items (u : UnitCtx) (secs : Sections) (attrs : Attrs)
+    (evs : List (Ev Item)) (h : dieRangesCore u secs attrs = .ok (.list evs)) :
+    ∀ it, Ev.item it ∈ evs → it.b < it.e ∧ it.b < minTombstone u.cfg.addrSize := by
+  unfold dieRangesCore at h
+  cases hl : dieRangesLoop u secs attrs {} with
+  | ok r =>
+    rw [hl] at h
+    cases r with
+    | inr evs' =>
+      simp only [Out.bind_ok, Out.pure_eq, Out.ok.injEq, RangesResult.list.injEq] at h
+      subst h
+      exact dieRangesLoop_list_items u secs attrs {} evs' hl
+    | inl acc =>
+      simp only [Out.bind_ok] at h
+      split at h
+      · simp at h
+      · split at h
+        · split at h <;> simp at h
+        · simp at h
+  | err e => rw [hl] at h; simp at h
+  | panic w => rw [hl] at h; simp at h
+  | diverge => rw [hl] at h; simp at h
+
+
 end Gimli.Lists
